@@ -5665,7 +5665,8 @@ func NewLsPrefixTLVs(pd *LsPrefixDescriptor) []LsTLVInterface {
 		}
 
 		prefixSize := ipReach.Bits()
-		lenIpPrefix := (prefixSize-1)/8 + 1
+		// number of octets that hold prefixSize bits: none for a /0
+		lenIpPrefix := (prefixSize + 7) / 8
 		ip := ipReach.Addr().AsSlice()
 
 		lsTLVs = append(lsTLVs, &LsTLVIPReachability{
